@@ -12,7 +12,7 @@ Open Scope string_scope.
 Open Scope list_scope.
 Open Scope Z_scope.
 
-Definition FUEL : nat := N.to_nat 4000%N.
+Definition FUEL : nat := N.to_nat 30000%N.
 
 Fixpoint list_eqb {A} (eqb : A -> A -> bool) (l m : list A) : bool :=
   match l, m with
